@@ -58,6 +58,8 @@ def plan(tier):
         specs.append({"part": "hdr", "n": 600})
         for i in range(3):
             specs.append({"part": "hdrworld", "n": 250, "i": i})
+        for i in range(2):
+            specs.append({"part": "msgwin", "n": 1500, "i": i})
     else:
         n = 16
         for i in range(n):
@@ -72,6 +74,8 @@ def plan(tier):
             specs.append({"part": "hdr", "n": 5000, "i": i})
         for i in range(8):
             specs.append({"part": "hdrworld", "n": 4000, "i": i})
+        for i in range(6):
+            specs.append({"part": "msgwin", "n": 40000, "i": i})
     return specs
 
 
@@ -448,7 +452,11 @@ def hdrworld_body(ctx, c):
                     to_server = bool(ti % 4 == 2)
                     target = sconn if to_server else ch.conn
                     seq = ring(M * 4 + int(target.bitfield_pkt.current_seqnum) + 1 + ti % 3)
-                    d = W.HDR.pack(W.MAGIC_TO_SERVER if to_server else W.MAGIC_TO_CLIENT, int(w.clock.t), seq, 0, 6, 20, 1, 0) + bytes(36)
+                    if ti % 3 == 0:
+                        # clear, CRC-valid, hello-typed (the types that are exempt from encryption somewhere in the codec)
+                        d = W.build_datagram(to_server, int(w.clock.t), seq, 0, 0, [W.T_SERVER_HELLO, W.T_CLIENT_HELLO][ti % 2], [(ring(M * 4 + 900 + ti), 2, b"forged")])
+                    else:
+                        d = W.HDR.pack(W.MAGIC_TO_SERVER if to_server else W.MAGIC_TO_CLIENT, int(w.clock.t), seq, 0, 6, 20, 1, 0) + bytes(36)
                     if to_server:
                         w.net.push(w.clock.t + 0.001, w.server_addr, ch.laddr, d)
                     else:
@@ -532,6 +540,61 @@ def run_hdrworld(spec, ctx):
     test()
 
 
+# ------------------------------------------------------------------------- part 4: message-level duplicates
+def msgwin_body(ctx, start, offsets):
+    """application messages handed to a real connection's message layer under generated message-sequence histories:
+    a message is delivered exactly when it was not received before (inside the 256 window); a message that never arrived is
+    never treated as a duplicate while it is inside the window.  Older than the window: unspecified here (D3, C04)."""
+    conn = ConnectionBase(True, ("h", 1))
+    conn.clock = lambda: 1000.0
+    conn.status = ConnectionStatus.CONNECTED
+    base = M * 4 + start
+    newest = None
+    received = set()
+    flags = set()
+    for d in offsets:
+        pos = base if newest is None else newest + d
+        n0 = len(conn.incoming_messages)
+        conn._recv_message(PacketType.APP, SeqNum(ring(pos)), b"m")
+        got = len(conn.incoming_messages) > n0
+        if newest is None or pos > newest:
+            exp = True
+        elif newest - pos <= 256:
+            exp = pos not in received
+            flags.add("dup" if not exp else "late")
+            if newest - pos > 32:
+                flags.add("late>32")
+        else:
+            exp = None
+            flags.add("beyond-256")
+        if exp is not None and got != exp:
+            ctx.violation("message-window-accept", "message seq %d (offset %+d from the newest): delivered=%r, model=%r (%s)" % (
+                ring(pos), d, got, exp, "never received before" if exp else "already received"))
+        if got:
+            received.add(pos)
+            if newest is None or pos > newest:
+                newest = pos
+    return flags
+
+
+def run_msgwin(spec, ctx):
+    steps = st.lists(st.one_of(st.integers(-300, 40), st.sampled_from([0, 1, 1, 1, 2, 5, -1, -2, -31, -32, -33, -34, -40, -100, -255, -256, -257, 33, 257])),
+                     min_size=1, max_size=120)
+
+    @ctx.given(spec["n"], st.one_of(st.integers(1, 300), st.integers(M - 300, M)), steps, salt=spec.get("i", 0))
+    def test(start, offsets):
+        if ctx.out_of_time():
+            return
+        ctx.case({"part": "msgwin", "start": start, "offsets": offsets})
+        flags = msgwin_body(ctx, start, offsets)
+        for f in flags:
+            ctx.label("msgwin-" + f)
+        if {"dup", "late>32"} <= flags:
+            ctx.nt(("msgwin", start, tuple(offsets)))
+        ctx.sample({"part": "msgwin", "start": start, "offsets": offsets[:30]})
+    test()
+
+
 def run_shard(spec, ctx):
     part = spec["part"]
     if part == "seqnum":
@@ -546,6 +609,8 @@ def run_shard(spec, ctx):
         run_hdr(spec, ctx)
     elif part == "hdrworld":
         run_hdrworld(spec, ctx)
+    elif part == "msgwin":
+        run_msgwin(spec, ctx)
 
 
 def replay_case(case, ctx):
@@ -561,3 +626,5 @@ def replay_case(case, ctx):
         hdr_body(ctx, case["start"], case["offsets"])
     elif part == "hdrworld":
         hdrworld_body(ctx, case["c"])
+    elif part == "msgwin":
+        msgwin_body(ctx, case["start"], case["offsets"])
